@@ -517,6 +517,9 @@ func C19(x *Ctx, r *core.Result) {
 	f19 := r.Rule("R19f", "a reachable call of the growth helper asks for no more than the promised spare capacity covers: the destination's length plus the length of an input parameter, or plus a constant no larger than the input bytes the caller consumes on each of its successful returns (asking for more would allocate although the destination has spare capacity of the input length)")
 	x.growthRequests(r, f19, fns)
 	r.CheckFloor(f19, 1)
+	g19 := r.Rule("R19g", "every exit of a machine that takes a stack — failing exits too — returns that stack (the parameter, grown by append or by make-and-copy, re-sliced): the wrappers store whatever comes back, so an exit that returned nil or a fresh slice would throw the warmed stack away and the next successful call would allocate")
+	x.stackReturned(r, g19)
+	r.CheckFloor(g19, 4)
 	d := r.Rule("R19d", "the grown stack is stored back into the Buffer by every wrapper (otherwise a warmed buffer would not stay warm)")
 	x.wrapperSymmetryOpt(r, d, true, bufferWrappers...)
 	r.CheckFloor(d, 5)
@@ -782,4 +785,103 @@ func (x *Ctx) noAllocError(name string, noAlloc func(*ssa.Function) bool) bool {
 		return noAlloc(x.W.SRoot.Func(fnName))
 	}
 	return false
+}
+
+// stackReturned: R19g.
+func (x *Ctx) stackReturned(r *core.Result, rs *core.RuleStat) {
+	for _, m := range x.Machines() {
+		fn := x.W.SRoot.Func(m.Name)
+		if fn == nil || fn.Blocks == nil {
+			continue
+		}
+		var sp *ssa.Parameter
+		for _, p := range fn.Params {
+			if isIntSlice(p.Type()) {
+				sp = p
+			}
+		}
+		ri := -1
+		res := fn.Signature.Results()
+		for i := 0; i < res.Len(); i++ {
+			if isIntSlice(res.At(i).Type()) {
+				ri = i
+			}
+		}
+		if sp == nil || ri < 0 {
+			continue
+		}
+		rs.Instances++
+		derived := map[ssa.Value]bool{sp: true}
+		// phis optimistically, then pruned (greatest fixpoint)
+		for _, b := range fn.Blocks {
+			for _, ins := range b.Instrs {
+				if ph, ok := ins.(*ssa.Phi); ok && isIntSlice(ph.Type()) {
+					derived[ph] = true
+				}
+			}
+		}
+		for changed := true; changed; {
+			changed = false
+			for _, b := range fn.Blocks {
+				for _, ins := range b.Instrs {
+					v, ok := ins.(ssa.Value)
+					if !ok || !isIntSlice(v.Type()) {
+						continue
+					}
+					is := derived[v]
+					want := false
+					switch t := ins.(type) {
+					case *ssa.Phi:
+						want = true
+						for _, e := range t.Edges {
+							if !derived[e] {
+								want = false
+							}
+						}
+					case *ssa.Slice:
+						want = derived[t.X]
+					case *ssa.Call:
+						if bi, ok := t.Call.Value.(*ssa.Builtin); ok && bi.Name() == "append" {
+							want = derived[t.Call.Args[0]]
+						}
+					case *ssa.MakeSlice:
+						// make + copy(new, stack) before any other use
+						for _, ref := range *t.Referrers() {
+							if c, ok := ref.(*ssa.Call); ok {
+								if bi, ok := c.Call.Value.(*ssa.Builtin); ok && bi.Name() == "copy" && c.Call.Args[0] == ssa.Value(t) && derived[c.Call.Args[1]] {
+									want = true
+								}
+							}
+						}
+					default:
+						continue
+					}
+					if is != want {
+						if _, isPhi := ins.(*ssa.Phi); isPhi && want {
+							continue // a pruned phi stays pruned
+						}
+						derived[v] = want
+						changed = true
+					}
+				}
+			}
+		}
+		bad := false
+		n := 0
+		for _, b := range fn.Blocks {
+			ret, ok := b.Instrs[len(b.Instrs)-1].(*ssa.Return)
+			if !ok || ri >= len(ret.Results) {
+				continue
+			}
+			n++
+			if !derived[ret.Results[ri]] {
+				r.Fail(rs, m.Name+":exit", x.W.Pos(ret.Pos()), "this exit does not hand back the stack it was given (nil or an unrelated slice): the caller's warmed buffer is lost and the next successful call allocates")
+				bad = true
+			}
+		}
+		if !bad {
+			rs.OK(1)
+			rs.Sample(fmt.Sprintf("%s: all %d exits return the stack parameter (grown / re-sliced)", m.Name, n))
+		}
+	}
 }
